@@ -10,6 +10,8 @@
 import MW.Lemmas.Deepen4Removal
 import MW.Lemmas.Deepen4Keys
 import MW.Lemmas.Deepen4CredNodup
+import MW.Lemmas.Deepen4RemKeys
+import MW.Lemmas.Deepen4RemPend
 namespace MW.Lemmas.Deepen4
 open MW MW.Model.Ledger MW.Model.Persist MW.Spec.Persist MW.Spec.Chain MW.Spec.Books MW.Lemmas.Ledger
   MW.Lemmas.PersistOp MW.Lemmas.PersistFault MW.Lemmas.PersistCrash MW.Lemmas.Deepen3 MW.Lemmas.ImportJoin
@@ -147,9 +149,16 @@ theorem JT_step {cfg : Cfg} {G : Block} (E : StaticOK cfg.st G) (hG : G.txs = []
         | extend b => exact JR_node E cr (.extend b) (Or.inl ⟨b, rfl⟩) hph hS
         | reorgTo m bs => exact JR_node E cr (.reorgTo m bs) (Or.inr ⟨m, bs, rfl⟩) hph hS
         | handle => have := hwin; simp only [WindowOK, hbusy] at this
-        | create w' => have := hwin; simp only [WindowOK, hbusy] at this
-        | newAddr w' stk => have := hwin; simp only [WindowOK, hbusy] at this
-        | recvTx tx => have := hwin; simp only [WindowOK, hbusy] at this
+        | create w' =>
+          have hne : w' ≠ w := by have := hwin; simp only [WindowOK, hbusy] at this; exact this
+          exact JR_create cr w' hph hne
+        | newAddr w' stk =>
+          have hne : w' ≠ w := by have := hwin; simp only [WindowOK, hbusy] at this; exact this
+          exact JR_newAddr cr w' stk hph hne hS
+        | recvTx tx =>
+          have hfr : ∀ c ∈ k.base.hist, tx.id ∉ idsOf (occs c) := by
+            have := hwin; simp only [WindowOK, hbusy] at this; exact this
+          exact JR_recvTx cr tx hph hfr
         | crash =>
           cases cr with
           | false => exact hph
@@ -304,7 +313,8 @@ theorem quiet_agree {st : Static} {G : Block} {x1 x2 : SysQ} {k : Skel} (h1 : JQ
     ready in both.  Coverage of the interleavings: `StepOKT` / `WindowOK` (one task at a time — the code refuses a
     second one with ErrTooManyTask; inside an import window crashes ANYWHERE, reorganisations, batches against a moved
     node, handler steps for any queued notification, stale ones included, CreateWallet, NewAddress of the other
-    wallets; inside a removal window crashes while no notification is pending and no handler steps); the state
+    wallets; inside a removal window crashes while no notification is pending, CreateWallet, NewAddress of the other
+    wallets, unconfirmed transactions that are in no chain the node has had — and no handler steps); the state
     hypothesis of a removal: `guardEv`. -/
 theorem crash_equiv_tasks {cfg : Cfg} {G : Block} (E : StaticOK cfg.st G) (hG : G.txs = []) (hb : cfg.batch > 0)
     (hl : cfg.limit > 0) (evs : List EvT) (x0 : SysQ) (k0 : SkelT) (hJ : JT cfg G x0 k0) (hR : RunOKT cfg G k0 evs)
